@@ -23,6 +23,7 @@ Definition caps_of (k : tykey) : caps :=
   | 6%N => {| is_codec := false; is_marshalable := true |}
   | 7%N => {| is_codec := true; is_marshalable := false |}
   | 13%N => {| is_codec := true; is_marshalable := false |}
+  | 14%N => {| is_codec := true; is_marshalable := false |}
   | _ => {| is_codec := false; is_marshalable := false |}
   end.
 Definition acc_codec (k : tykey) (_ : wire_err) : bool := negb (N.eqb (ty_name k) 7).
@@ -51,6 +52,9 @@ Definition mk_err (kind : N) (msg : bytes) (n : Z) : option errval :=
   | 9%N => ev (tk 10 true) None None
   | 10%N => ev (tk 10 false) None None
   | 13%N => ev (tk 13 true) (Some (46%Z, msg, Some (JStr (bs "payload-" ++ z_lit n)%list))) None
+  (* a codec error whose own wire message is empty while its Error() text is not: the codec's fields travel, not Error() *)
+  | 14%N => Some {| ev_ty := tk 14 true; ev_msg := (bs "emc: " ++ msg)%list;
+                    ev_codec := Some (47%Z, [], Some (JStr (bs "d-" ++ z_lit n)%list)); ev_meta := None |}
   | 11%N | 12%N => Some {| ev_ty := tk 11 true; ev_msg := (bs "ctx: " ++ msg)%list; ev_codec := None; ev_meta := None |}
   | _ => None
   end.
@@ -80,7 +84,7 @@ Definition expect_fields (k : tykey) (p : option (wire_err + json)) (obs : json)
   | 3%N, Some (inr j) => json_eqb obs (JObj [(bs "M", match field "M" j with JNull => JStr [] | v => v end);
                                              (bs "N", match field "N" j with JNull => zn 0 | v => v end)])
   | 3%N, None => json_eqb obs (JObj [(bs "M", JStr []); (bs "N", zn 0)])
-  | (4%N | 13%N), Some (inl w) => json_eqb (field "code" obs) (zn (we_code w)) && json_eqb (field "message" obs) (JStr (we_msg w))
+  | (4%N | 13%N | 14%N), Some (inl w) => json_eqb (field "code" obs) (zn (we_code w)) && json_eqb (field "message" obs) (JStr (we_msg w))
                          && json_eqb (field "data" obs) (opt_json (we_data w))
   | 5%N, Some (inl w) => json_eqb (field "code" obs) (zn (we_code w)) && json_eqb (field "message" obs) (JStr (we_msg w))
                          && json_eqb (field "data" obs) (opt_json (we_data w)) && json_eqb (field "X" obs) (zn 0)
